@@ -20,7 +20,7 @@ import sys
 
 from vlib.core import MachineryError
 
-FAMILIES = ["mj_basic", "mj_restricted", "mj_qerr", "ml", "sj_shape", "sj_trust", "inv"]
+FAMILIES = ["mj_basic", "mj_restricted", "mj_qerr", "ml", "sj_shape", "sj_trust", "inv", "inv3"]
 
 
 def _runs(path):
@@ -144,9 +144,12 @@ def run(ctx):
         "conjunct applies to send_join only",
         "the auth-rule conjunct of make_join / make_leave and the federation-response checks use a compact oracle for a "
         "user's own join / leave (DESIGN.md 5.1 A1, A5, A7, A14 included); join rules a room version does not know are not generated",
-        "user IDs serve as sender IDs (no pseudo-ID rooms; HandleInviteV3 is not exercised)",
-        "invite: a room the local server does not know has no membership for the invited user; the stripped state is taken "
-        "from a state querier that knows the room's create / join-rules events",
+        "user IDs serve as sender IDs; pseudo-ID rooms only in the inv3 family: HandleInviteV3 with a well-formed invite "
+        "template (version, room, membership and stripped-state classes; its result must be the template completed for and "
+        "signed with the invited user's room key)",
+        "invite: a room the local server does not know has no membership for the invited user; the stripped state either "
+        "comes with the request (create + join rules) or is taken from a state querier that knows those events; no conjunct "
+        "depends on which",
         "a UserIDForSender answer of (nil, nil) is a legal querier answer (the library itself tests for it elsewhere): the "
         "handlers must refuse, not panic",
         "no clock hook: harness events are dated 2023, keys are valid until now + 48 h (the 'expired' class: until before the "
@@ -161,20 +164,35 @@ def run(ctx):
         % (FAMILIES, "1,10 (restricted: 10,12; send_join trust and invite products: 10)" if quick else "1,2,3,6,7,8,9,10,11,12",
            " in room version 10" if quick else " in room versions 1,6,10,11,12 and with at most 3 in room version 10"))
     total = 0
-    for fam in FAMILIES:
-        r = ctx.tlc("Handshake_gen", "Handshake_gen_%s_%s.cfg" % (fam, ctx.tier), timeout=1500)
-        ctx.replay_and_compare("c15prod", r.records, pkg="c15")
-        total += len(r.records)
-    # end-to-end behaviours chosen by TLC (thorough: also every behaviour with three forgeries in one room version)
-    for n, cfg in enumerate(["e2e"] if quick else ["e2e", "e2e3"]):
-        r = ctx.tlc("Handshake_gen", "Handshake_gen_%s_%s.cfg" % (cfg, ctx.tier), timeout=1500)
-        ctx.replay_and_compare("c15e2e", r.records, pkg="c15")
-        total += len(r.records)
+
+    def e2e(records, tag, step):
+        ctx.replay_and_compare("c15e2e", records, pkg="c15")
         # ... recorded and validated (code -> spec)
-        t1 = os.path.join(ctx.scratch, "c15_%s_trace.ndjson" % cfg)
-        step = 3 if quick else (8 if cfg == "e2e3" else 1)
-        ctx.harness("c15e2e", r.records[::step], args=["-out", t1], pkg="c15")
-        _validate(ctx, t1, "tlc%d" % n)
+        t1 = os.path.join(ctx.scratch, "c15_%s_trace.ndjson" % tag)
+        ctx.harness("c15e2e", records[::step], args=["-out", t1], pkg="c15")
+        _validate(ctx, t1, tag)
+
+    if quick:
+        # one TLC run enumerates every product family and the end-to-end behaviours (<= 2 forgeries, room version 10)
+        r = ctx.tlc("Handshake_gen", "Handshake_gen_all_quick.cfg", timeout=1500)
+        prods = [x for x in r.records if x["flow"] == "product"]
+        runs = [x for x in r.records if x["flow"] != "product"]
+        fams = set(x["fam"] for x in prods)
+        if fams != set(FAMILIES):
+            raise MachineryError("product families generated: %s" % sorted(fams))
+        ctx.replay_and_compare("c15prod", prods, pkg="c15")
+        e2e(runs, "tlc0", 3)
+        total += len(r.records)
+    else:
+        for fam in FAMILIES:
+            r = ctx.tlc("Handshake_gen", "Handshake_gen_%s_%s.cfg" % (fam, ctx.tier), timeout=1500)
+            ctx.replay_and_compare("c15prod", r.records, pkg="c15")
+            total += len(r.records)
+        # end-to-end behaviours chosen by TLC, also every behaviour with three forgeries in one room version
+        for n, (cfg, step) in enumerate([("e2e", 1), ("e2e3", 8)]):
+            r = ctx.tlc("Handshake_gen", "Handshake_gen_%s_%s.cfg" % (cfg, ctx.tier), timeout=1500)
+            e2e(r.records, "tlc%d" % n, step)
+            total += len(r.records)
     ctx.notes["scenarios_replayed"] = total
     # seeded random runs beyond the TLC bounds
     n = 1000 if quick else 25000
